@@ -62,7 +62,10 @@ CLAIMED = {
               'depth 3; the intact schema is accepted). Partial: the general per-rule characterisation of "constraint satisfies the '
               'declared constraint schema" is not a theorem yet; it is decided by the accept/entries ports on generated schemas and '
               'single-point corruptions at every rule-set position, through every entry point, with the cache cleared. '
-              'The port found defect F29 (dangling reference accepted below a list schema), repaired by a fix: commit.'),
+              'The corruptions include unknown rule names that are not strings, names only the internal schema validator has (logical, its '
+              'checkers), wrongly typed constraints of subclass rules declared in both docstring styles, and references whose definitions '
+              'live in registries bound to the validator / only in the module-level ones / are malformed. '
+              'The checks found defects F26, F29, F32, F34, F35 (schema errors reported as other exceptions or not at all), repaired by fix: commits.'),
         note=COMMON_NOTE + 'The acceptance model is only as good as the Lean validation model it reuses; sets as constraints are outside the value universe.',
         design='§6 C04'),
     'C05': dict(
@@ -183,7 +186,7 @@ CLAIMED = {
               'nested 0..6 deep and reports the planted error). Partial: termination for every finite document under arbitrary '
               'recursive registries, and the normalization-side use sites, are decided by the oracle (random subsets of reference-able '
               'positions, chains, both kinds of registries: same acceptance, verdict, errors, normalized document) and the ports. '
-              'Defects F7, F21, F25, F27, F29, F30, F31 of this property were repaired by fix: commits.'),
+              'C14_fuel_irrelevant / C14_fuel_irrelevant_processing: the fuel that ties the recursion of the model is only a termination device (an answer other than out-of-fuel is the answer for every larger fuel; validation and normalization, every environment). C14_self_reference_accepted (kernel-evaluated: rules sets that refer to themselves from within a schema mapping are accepted, malformed ones rejected). C14_witness_items_on_string: the termination clause is FALSE for a self-referential items rule on a one-character string (kernel-checked by induction on the fuel; known finding F37, reported as KNOWN-FINDING). Defects F7, F21, F25, F27, F29, F30, F31, F33, F33b, F36, F38 of this property were repaired by fix: commits.'),
         note=COMMON_NOTE + 'Registries are modelled by their stored (already expanded) contents.',
         design='§6 C14'),
     'C15': dict(
